@@ -20,4 +20,4 @@ open Uflow.Props.C03
 #print axioms C03_hc_step_reset_witness
 #print axioms C03_hc_clock_witness
 #print axioms C03_hc_channel_witness
-#print axioms C03_hc_bandwidth_witness
+#print axioms C03_hc_bandwidth_example
